@@ -42,6 +42,7 @@ import VaxisModel.Lemmas.C04Chunk13
 import VaxisModel.Lemmas.C04Chunk14
 import VaxisModel.Lemmas.C04Chunk15
 import VaxisModel.Lemmas.C04Session
+import VaxisModel.Lemmas.C04Guards
 
 namespace VaxisModel.Props.C04
 open VaxisModel.Lemmas.C04Check VaxisModel.Model.Lifecycle VaxisModel.Spec.ModeTerm
@@ -89,6 +90,31 @@ theorem balanced (m : Nat) (hm : m < 512) (kittyFlags userCursorStyle k0 : Nat) 
   have hinv := ops_inv (k0 := k0) F (rfl : e.v = vOf m) hq _ ops hok (start_inv F rfl hq)
   have := shutdown_restores F (rfl : e.v = vOf m) hq _ hinv
   exact ⟨this.2, this.1⟩
+
+/-- The terminal before Vaxis starts, for a guard function `e.v` (cf. `t0V`). -/
+def t0G (e : Env) (k0 : Nat) : MTerm :=
+  { supported := (t0Of e).supported, kittySupported := e.v "caps.kittyKeyboard", appIdSupported := e.v "caps.osc176",
+    kitty := k0, appId := appIdHex e.appId, cursorShape := e.userCursorStyle }
+
+/-- **`balanced` over guard functions instead of assignment numbers.**  For EVERY `v : String → Bool`
+    that is false outside the nine guard variables (i.e. every capability set × DisableMouse, and no
+    I/O error on the way — the `expr:` guards of the error returns are false), every `Env` with these
+    guards and any run-time values: every session followed by shutdown restores the terminal.
+    (`C04Guards.v_eq`: such a `v` is one of the 512 assignments the kernel evaluated.) -/
+theorem balanced_all_guards (e : Env) (hv : ∀ n, n ∉ vars → e.v n = false) (k0 : Nat) (hq : SettableId e.appId)
+    (ops : List Op) (hok : ∀ op ∈ ops, op.ok) :
+    restored (t0G e k0) (shutdown e (runOps e (start e (t0G e k0)) ops)).t = true := by
+  have hve := VaxisModel.Lemmas.C04Guards.v_eq e.v hv
+  have he : e = envV (VaxisModel.Lemmas.C04Guards.mOf e.v) e.kittyFlags e.userCursorStyle e.appId := by
+    cases e with
+    | mk v kf ucs app => simp only [envV, Env.mk.injEq, and_true]; exact hve
+  have ht : t0G e k0 = t0V (VaxisModel.Lemmas.C04Guards.mOf e.v) e k0 := by
+    simp only [t0G, t0V, sT0, t0Of, vOf]
+    rw [show (envOf (VaxisModel.Lemmas.C04Guards.mOf e.v)).v = e.v from hve.symm]
+  rw [ht]
+  have := (balanced (VaxisModel.Lemmas.C04Guards.mOf e.v) (VaxisModel.Lemmas.C04Guards.mOf_lt e.v) e.kittyFlags e.userCursorStyle k0 e.appId hq ops hok).1
+  rw [← he] at this
+  exact this
 
 /-- **Suspend restores, Resume re-establishes** — at every point of every session: while
     suspended everything is restored exactly as after Close; while running (in particular after
